@@ -50,10 +50,13 @@ ASSUMPTIONS = [
     "no Pillow in the sandbox: DCT data is compared byte for byte, CMYK/JPX conversions are outside the property",
 ]
 STATEMENT_STATUS = {
-    "C18_bmp_rt": "proved (gray-8, RGB-8, 1-bit; all w,h >= 1 within BMP limits)",
+    "C18_bmp_rt": "proved (gray-8, RGB-8, 1-bit; all w,h >= 1 within BMP limits; any lossless filter list; any listing)",
+    "C18_bmp_rt_pixelwise / C18_samples_pixelwise": "proved (same, against the index-based meaning of samples)",
+    "C18_bmp_pinned_cex": "proved counter-example for the pinned writer (padding, R/B order)",
     "C18_jpeg_bytes": "proved",
-    "C18_names_distinct": "proved",
-    "C18_inline_capture": "proved for data whose last byte is not CR when the EOL is a bare LF",
+    "C18_names_distinct": "proved (with C18_export_fresh, C18_unique_name_terminates)",
+    "C18_inline_scan / C18_inline_scan_eof": "proved (consumed = data EOL EI ws; result = data++EOL minus one EOL)",
+    "C18_inline_capture_partial": "partial: excludes data ending in CR when the EOL is a bare LF",
     "C18_inline_trailing_cr_cex": "proved counter-example (open finding inline-data-trailing-cr)",
 }
 
@@ -219,7 +222,15 @@ def build_doc(pages: List[Dict[str, Any]], rng=None) -> Tuple[bytes, bytes]:
                                              abbreviate=img.get("abbr", True))
                 c += pre + b"q 10 0 0 10 %d 20 cm\n" % (30 * i) + body + b"Q\n"
             else:
-                extra[objn] = W.Stream(IL.image_dict(img, False), payload)
+                d = IL.image_dict(img, False)
+                if img.get("cs_array"):
+                    d["ColorSpace"] = [d["ColorSpace"]]
+                for k in img.get("indirect", []):          # the value is spelled as an indirect reference
+                    objn += 1
+                    extra[objn] = d[k]
+                    d[k] = W.Ref(objn)
+                objn += 1
+                extra[objn] = W.Stream(d, payload)
                 key = W.Name(img["name"].encode("latin-1"))
                 if key in xo:            # same resource name twice on a page is not expressible: rename
                     key = W.Name((img["name"] + "_%d" % i).encode("latin-1"))
@@ -330,6 +341,7 @@ def judge_file(img: Dict[str, Any], name: Optional[str], blob: Optional[bytes], 
 
 def export_tags(img: Dict[str, Any]) -> Dict[str, Any]:
     return {"area": "export", "kind": img["kind"], "unfiltered": not img.get("filters"),
+            "indirect": img.get("indirect", []), "cs_array": bool(img.get("cs_array")),
             "rowpad": (not img["kind"].startswith("jpeg")) and IL.row_bytes(img["kind"], img["w"]) % 4 != 0,
             "place": img.get("place", "xobj")}
 
@@ -337,6 +349,23 @@ def export_tags(img: Dict[str, Any]) -> Dict[str, Any]:
 def shrink_image(img: Dict[str, Any], still_fails) -> Dict[str, Any]:
     """Greedy shrink of one image spec keeping the failure."""
     cur = dict(img)
+    for key in ("cs_array", "indirect"):
+        if cur.get(key):
+            t = dict(cur)
+            t.pop(key)
+            try:
+                if still_fails(t):
+                    cur = t
+            except Exception:  # noqa: BLE001
+                pass
+    for k in list(cur.get("indirect", [])):
+        t = dict(cur)
+        t["indirect"] = [x for x in cur["indirect"] if x != k]
+        try:
+            if t["indirect"] and still_fails(t):
+                cur = t
+        except Exception:  # noqa: BLE001
+            pass
     if cur["kind"].startswith("jpeg"):
         return cur
     for key, cands in (("h", [1, 2]), ("w", [1, 2, 3, 4, 5]), ("filters", [[]] + [[f] for f in cur.get("filters", [])[:1]])):
@@ -586,6 +615,14 @@ def gen_pages(rng, idx0: int) -> List[Dict[str, Any]]:
                 img["name"] = "Im0"              # same name on several pages -> numbered file names
             if img["place"] == "inline":
                 fix_inline(rng, img)
+            else:
+                if rng.random() < 0.35:
+                    img["indirect"] = sorted(rng.sample(["ColorSpace", "Width", "Height", "BitsPerComponent", "Filter"],
+                                                        rng.choice([1, 1, 2, 5])))
+                    if not img.get("filters"):
+                        img["indirect"] = [k for k in img["indirect"] if k != "Filter"]
+                if rng.random() < 0.15:
+                    img["cs_array"] = True
             imgs.append(img)
         pages.append({"images": imgs, "text": "t%d" % p})
     return pages
